@@ -54,6 +54,7 @@ type Engine struct {
 	solverBin       string
 	logic           string
 	solverTimeoutMs int
+	fallbackMs      int
 	smtLog          string
 	globalsMu       sync.Mutex
 	globals         map[*ssa.Global]*Cell
@@ -63,6 +64,9 @@ type Engine struct {
 	modelsPkg       *ssa.Package
 	owners          map[*Cell]cellOwner
 	tokMu           sync.Mutex
+	genIntr         sync.Map // *ssa.Function (instantiation) -> intrinsic or nil
+	bigMu           sync.Mutex
+	bigInit         map[*Cell]bigVal
 	typeTokens      map[string]*typeToken
 	ownersN         int
 }
@@ -82,6 +86,7 @@ type Interp struct {
 	mapOrder   bool
 	onceDone   map[*Cell]bool
 	localGlobals map[*ssa.Global]*Cell // path-local copies of assigned globals
+	bigs         map[*Cell]bigVal      // math/big.Int values (see bigmodel.go)
 }
 
 type outcome struct {
@@ -225,6 +230,11 @@ func (it *Interp) set(fr *Frame, v ssa.Value, x Value) {
 func (it *Interp) callFunction(fn *ssa.Function, args []Value, bind []Value, deferOf *Frame) (ret Value) {
 	if in, ok := it.eng.intr[fn]; ok {
 		return in(it, fn, args)
+	}
+	if fn.TypeArgs() != nil {
+		if in := it.eng.genericIntrinsic(fn); in != nil {
+			return in(it, fn, args)
+		}
 	}
 	if fn.Blocks == nil {
 		if in := lookupIntrinsicByName(it.eng, fn); in != nil {
